@@ -18,7 +18,7 @@
 (***************************************************************************)
 EXTENDS Naturals, Sequences, FiniteSets, TLC
 
-PreWriteFaults == {"flag", "nospec", "config_missing", "config_yaml", "config_field", "config_feature", "config_feature_disable", "config_type", "spec_missing", "spec_yaml", "spec_invalid", "not_implemented", "route", "unnameable", "package_invalid", "expand_route"}
+PreWriteFaults == {"flag", "nospec", "config_missing", "config_yaml", "config_field", "config_feature", "config_feature_disable", "config_type", "config_found_unreadable", "config_found_yaml", "spec_missing", "spec_yaml", "spec_invalid", "not_implemented", "route", "unnameable", "package_invalid", "expand_route"}
 FaultPoints == PreWriteFaults \cup {"none", "version"}
 
 \* name classes used by the scenarios
